@@ -265,7 +265,9 @@ def run(tier, seed, log):
         "every ordered multigraph of each space x vertex class variants x all labellings of attribute k over the "
         "space's label domain (absent, 1000, (1,2), 0, None) x every start x universes x every stored value as "
         "sought value (1000 and (1,2) as freshly built equal objects; 0; None), a value no vertex carries, and an "
-        "attribute name no vertex has (sought 1000 and None) x 3 searches; expected = first match in the list "
+        "attribute name no vertex has (sought 1000 and None) x 3 searches; starts outside the universe and "
+        "universes of a subclass that rejected the outsider's attempt to join included (the answer is never a "
+        "non-member); expected = first match in the list "
         "returned by the real corresponding traversal; non-trivial = the sought value is carried by some vertex")
     rep.assumptions = ["caching off; edge classes of the two edge families only (default unknown handling "
                        "raises otherwise and the statement is silent there)",
